@@ -187,3 +187,32 @@ def get_units():
             c.findings['oracle'] = ('C03-F2', lambda v: L.length(v['words']) != 1)
         us.append(Unit('C03/oracle.%s' % c.name, oracle_lemma(c), ['C03'], functions=['pymodbus.pdu.ModbusPDU.calculateRtuFrameSize', 'pymodbus.utilities.rtuFrameSize']))
     return us
+
+
+# --------------------------------------------------------------------------- "... equal to the original": the decoder on exactly the PDU
+# The round-trip lemmas above show the receiver hands the decoder exactly the PDU of m (function code + encode()).  That the
+# message the decoder makes from those bytes equals m is the per-class lemma below: real encode, real ServerDecoder/ClientDecoder
+# (function-code and sub-function lookup included), per message class of the S-PDU table.
+REMAP = {'C02-F1': 'C03-F3', 'C02-F2': 'C03-F4', 'C02-F3': 'C03-F5'}
+_units_oracle = get_units
+
+
+def get_units():
+    from .C01 import codec_units, CONTRACTS as CC
+    from .C02 import rt_lemma
+    from . import lemmas as LM
+    us = _units_oracle()
+    cs = []
+    for c in C.all_codecs():
+        c.findings = {k: (REMAP.get(f, f), r) for k, (f, r) in dict(c.findings).items()}
+        cs.append(c)
+    ms = codec_units('C03', rt_lemma, 'message', codecs=cs)
+    for u in ms:
+        u.functions = [u.functions[0].rsplit('.', 1)[0] + '.encode', u.functions[0].rsplit('.', 1)[0] + '.decode',
+                       'pymodbus.factory.ServerDecoder._helper', 'pymodbus.factory.ClientDecoder._helper']
+    have = set(u.name for u in us)
+    for u in ms + [k.unit() for k in CC] + LM.lemma_units():
+        if u.name not in have:
+            have.add(u.name)
+            us.append(u)
+    return us
